@@ -19,7 +19,7 @@ The tokenizer (expat behind `xml.etree.ElementTree.iterparse`, libxml2 behind
 `lxml.etree.iterparse`) is not modelled: its *outcome* on the byte string is the
 input of this layer.
 -/
-import XsdataModel.Bind.Parse
+import XsdataModel.Bind.Union
 
 namespace Xs.Fault
 open Py Xs.Bind
@@ -36,13 +36,30 @@ inductive Tok
   encoding) or `ValueError` ("multi-byte encodings are not supported", `UnicodeError`) comes out
   of the tokenizer's `next()` -/
   | codecError (pyType : String)
+  /-- with `process_xinclude`: the inclusion step fails — the stdlib's `FatalIncludeError` (a
+  `SyntaxError`) under the pure-Python handler, lxml's `XIncludeError` under the lxml handler
+  (malformed or recursive include, invalid `parse` value, missing `href`).  After a successful
+  inclusion the handler walks the expanded tree: that is `tree`. -/
+  | includeError
+  /-- lxml handler (`recover=True`): libxml2 gives up at a fatal error before the root element
+  is closed; the node queue is not empty at the end and the handler has no result -/
+  | stopped
+  /-- lxml handler: character data that lxml cannot decode (a reference to a surrogate code
+  point survives libxml2's recovery mode): `UnicodeDecodeError` when text or attributes are read -/
+  | textDecodeError
 deriving Repr
 
 /-- `NodeParser.parse(source, clazz)` as far as the result class is concerned -/
 def parseDocument (e : BEnv) (Γ : Ctx) (cfg : ParserConfig) (clazz : ClassId) : Tok → Except Err (Val × Nat)
-  | .tree t => parseRoot e Γ cfg clazz t
+  | .tree t => parseRootU e Γ cfg clazz t
   | .syntaxError => .error (.parser "syntax error")      -- `except SyntaxError: raise ParserError`
   -- handlers/native.py `iterparse`: `except (LookupError, ValueError): raise ParserError`
   | .codecError _ => .error (.parser "codec error")
+  -- native: `FatalIncludeError` is a `SyntaxError`; lxml: `except etree.XIncludeError: raise ParserError`
+  | .includeError => .error (.parser "xinclude error")
+  -- handlers/lxml.py: `if self.queue: return None`, then "Failed to create target class"
+  | .stopped => .error (.parser "Failed to create target class")
+  -- handlers/lxml.py: `except UnicodeDecodeError: raise ParserError`
+  | .textDecodeError => .error (.parser "UnicodeDecodeError")
 
 end Xs.Fault
